@@ -8,6 +8,7 @@ def run(ctx):
                 "non-trivial = every recv/build event (each is checked against the full clause set)")
     CM.c07_models(ctx)
     J.schedule_sweep(ctx, "C07", ctx.quick)
+    J.ack_lateness_sweep(ctx, "C07", list(range(27, 38)) if ctx.quick else list(range(1, 50)))
     J.run_scenarios(ctx, "C07", scenarios(ctx))
 
 
